@@ -41,10 +41,10 @@ def body(run):
     ]
     if not q:
         jobs += [
-            lambda: run.tlc("ScCorr", "ScCorr", "ScCorr_mc_t1.cfg", label="contract: 3 callers", timeout=3000, workers=6),
-            lambda: run.tlc("ScCorr", "ScCorr", "ScCorr_mc_t3.cfg", label="contract: 2 callers x 2 calls, id wrap", timeout=3000, workers=4),
-            lambda: run.tlc("ScCorr", "ScCorr", "ScCorr_gen_c18_t2.cfg", mode="gen", count=False, timeout=3000,
-                            label="scripts: 2 callers x 2 calls"),
+            lambda: run.tlc("ScCorr", "ScCorr", "ScCorr_mc_t1.cfg", label="contract: 3 callers", timeout=3000, workers=5),
+            lambda: run.tlc("ScCorr", "ScCorr", "ScCorr_mc_t3.cfg", label="contract: 2 callers x 2 calls, id wrap", timeout=3000, workers=6),
+            lambda: run.tlc("ScCorr", "ScCorr", "ScCorr_gen_c18_t2.cfg", mode="gen", count=False, timeout=3000, simulate=5000, depth=200,
+                            label="scripts: 2 callers x 2 calls (seeded random walks to terminal states)"),
         ]
     res = run.parallel(*jobs)
     demos = [res[1].violated, res[2].violated]
@@ -78,6 +78,8 @@ def body(run):
     if len(results) < len(cases):
         raise vf.Inconclusive("harness returned %d results for %d cases" % (len(results), len(cases)))
     run.absorb(results)
+    for r in [r for r in results if r.get("status") == "inconclusive"][:3]:
+        run.log("inconclusive case: %s" % str(r.get("detail"))[:300])
     # binding demonstration: corrupt the specification's expectation of a few cases -> must be rejected
     rnd = random.Random(run.seed)
     corrupted = []
@@ -92,7 +94,8 @@ def body(run):
     cres = run.go_run(exe[0], ["-prop", "C18"], cases=corrupted, timeout=600)
     rejected = sum(1 for r in cres if r.get("status") == "violation")
     run.cov["binding_demo"] = {"corrupted_expectations": len(corrupted), "rejected": rejected}
-    if corrupted and rejected < len({json.dumps(c["n"]) for c in corrupted}):
+    accepted = sum(1 for r in cres if r.get("status") == "ok")  # a case that could not be driven counts as neither
+    if corrupted and (accepted > 0 or rejected == 0):
         raise vf.Inconclusive("binding demonstration failed: %d corrupted expectations, %d rejected" % (len(corrupted), rejected))
     run.cov["scripts_generated"] = len(rows)
     run.cov["script_classes"] = nclasses
@@ -101,7 +104,7 @@ def body(run):
                        "kinds + multiset of call outcomes + level + wrap; many-caller runs = callers x rounds x id stride")
     run.assumptions += [
         "responses are matched by request id only (as in the protocol); an unsolicited response that reuses the id of a live request is indistinguishable from its answer and is not generated",
-        "request-id reuse while the first user is still pending (2^32 requests in flight) is not explored; the wrap 2^32-1 -> 1 is",
+        "request-id reuse while the first user is still pending is explored with a two-id model without timer/context events (uasc.VerifSetRequestID moves the real counter back); with timeouts a late response to a timed-out request whose id was reused cannot be told from the new request's answer by protocol and is not generated",
         "server-side frames are produced by the library's own server channel (scripted order and shape)",
         "TLC, SANY, Go toolchain trusted",
     ]
